@@ -1,6 +1,7 @@
 #!/usr/bin/env python3
 """Requires every stable_pass test of /root/.vp/BASELINE.json to pass in the last nextest run."""
 import json, sys, glob, os, xml.etree.ElementTree as ET
+missing_out = sys.argv[sys.argv.index('--missing-out')+1] if '--missing-out' in sys.argv else None
 base = json.load(open('/root/.vp/BASELINE.json'))
 want = set(base['stable_pass'])
 root = '/repo/' + (open('/w/out/cargo_root.txt').read().strip() if os.path.exists('/w/out/cargo_root.txt') else '.')
@@ -17,4 +18,5 @@ passed -= failed
 missing = sorted(want - passed)
 print(f'baseline: {len(passed)} passed, {len(failed)} failed, stable_pass required {len(want)}, missing {len(missing)}')
 for m in missing[:40]: print('  NOT PASSING:', m)
+if missing_out: open(missing_out,'w').write(''.join(m+'\n' for m in missing))
 sys.exit(0 if not missing else 1)
